@@ -199,6 +199,9 @@ def greedy_rejection(prog: Program, rep, RID: str):
             loop = n
     key = "kFlowDecomp._get_solution_with_greedy:constraint-check"
     if loop is None:
+        if "max_occurrence(" in norm(f.node) and "subpath_constraints" in norm(f.node):
+            raise AnalysisError("kFlowDecomp._get_solution_with_greedy: the coverage check of the greedy paths is present but not written as a loop over "
+                                "self.subpath_constraints with an early `return False`: idiom not recognised")
         rep.violation(RID, key, "the greedy decomposition is no longer checked against the subpath constraints", f.loc())
         return
     ok = False
